@@ -419,7 +419,10 @@ def application_table(w):
                 # (real values throughout: code that looks at what the frame holds can be followed)
                 num_ = dict((n_, i_) for i_, n_ in w.fb.variants("values::Number"))
                 args = [w.named(w.val, "Boolean", [True]), w.named(w.val, "Number", [w.named(num_, "Integer", [7])])]
-                r = Run(w, follow=[w.asp.name], answers={"D": ok(w.named(w.val, "Boolean", [False]))})
+                # (the body's value is a real value too: code that looks at what the call returns before it lets go of the frame)
+                tv = Enum(1, [w.named(w.val, "Boolean", [True])])
+                tv.name = "Value"
+                r = Run(w, follow=[w.asp.name], answers={"D": ok(w.named(w.val, "Boolean", [False]))}, tail_answers={"B2": ok(tv)})
             try:
                 res = r.run(w.ap, [proc, list(args), caller])
             except (absint.Stuck, absint.Loop) as e:
@@ -443,6 +446,48 @@ def application_table(w):
                                                     if any(len(u.fields) > 1 and u.fields[1] is frames[0][1] for u in find_enum(v_[1], "User")))
             rows.append(((kind, k), d))
     return rows
+
+
+def thunk_call_table(w):
+    """eval_expression on ((lambda () (define d D) B1 B2)) — what a `let` without bindings, `begin` and the clause bodies expand to — in
+    the frame E: the internal definition belongs to a frame of the call's own, never to E"""
+    E = Frame(None, "caller-frame")
+    sp = w.scheme_procedure(w.formals([]), [("d", w.sym("D"))], [w.sym("B1"), w.sym("B2")])
+    form = w.call(w.lam(sp), [])
+    r = Run(w, follow=[w.ap.name, w.asp.name])
+    try:
+        res = r.run(w.ee, [form, E])
+    except (absint.Stuck, absint.Loop) as e:
+        return {"stuck": str(e)}
+    defines = [e for e in r.events if e[0] == "define"]
+    return {"result": res, "E": E, "defines": [(e[1], e[2]) for e in defines],
+            "evals": [(e[1], e[2]) for e in r.events if e[0] in ("eval", "tail")]}
+
+
+def rule_thunk_call(ctx, rule):
+    fb = ctx.fb()
+    w = tables(fb)["w"]
+    d = thunk_call_table(w)
+    key = "call/((lambda () (define d D) B1 B2))"
+    where = mir_where(w.ee)
+    if "stuck" in d:
+        ctx.undecided(rule, key, "abstract evaluation could not follow the evaluator on this case (%s)" % d["stuck"], where)
+        return 0
+    E = d["E"]
+    in_caller = [n for fr, n in d["defines"] if fr is E]
+    in_child = [n for fr, n in d["defines"] if isinstance(fr, Frame) and fr is not E and fr.parent is E]
+    body_in_caller = [t for t, fr in d["evals"] if fr is E and t in ("D", "B1", "B2")]
+    if not in_caller and not body_in_caller and "d" not in in_child:
+        ctx.undecided(rule, key, "cannot see where the internal definition of a parameterless lambda called in place is bound (%r)" % (d["defines"],), where)
+        return 0
+    good = not in_caller and not body_in_caller
+    ctx.inst(rule, key, {"internal_definition_in_own_frame": good})
+    ctx.oblige(good)
+    if not good:
+        ctx.report(rule, key, "evaluating ((lambda () (define d D) B1 B2)) in a frame E %s; expected a child frame of E made for the call "
+                   "(the body of a `let` without bindings is a region of its own: its definitions must not touch the variables of the enclosing scope)" % (
+                       "binds %s in E itself" % in_caller if in_caller else "evaluates %s in E itself" % body_in_caller), where)
+    return 1
 
 
 def trampoline_table(w):
@@ -1274,7 +1319,8 @@ def error_location_table(w):
     # ... and an operand of a call / of a pending tail call that fails with a REAL error of its own — "5 is not a procedure" raised by
     # an inner call, an unbound variable — already located where it happened
     for kind_ in ("non-procedure", "unbound"):
-        sites += [("call/operand-fails", kind_), ("tail-call/operand-fails", kind_), ("call/callee-fails", kind_), ("apply/body-form-fails", kind_)]
+        sites += [("call/operand-fails", kind_), ("tail-call/operand-fails", kind_), ("call/callee-fails", kind_), ("apply/body-form-fails", kind_),
+                  ("assignment/value-fails", kind_), ("conditional/test-fails", kind_)]
     for site, kind_ in sites:
         for own in ((False, True) if kind_ == "opaque" else (True,)):
             first_loc = w.nloc
@@ -1295,6 +1341,15 @@ def error_location_table(w):
                 elif site == "call/operand-fails":
                     expr = w.call(w.sym("OP"), [w.sym("A1"), w.sym("A2")])
                     r = Run(w, answers={"OP": ok(w.procedure_value(Tok("procedure", "P"))), "A2": err(E)})
+                    res = r.run(w.ee, [expr, caller])
+                elif site == "assignment/value-fails":
+                    # (set! x E) whose value expression fails with an error located where it happened
+                    expr = w.assign("x", w.sym("E1"))
+                    r = Run(w, answers={"E1": err(E)})
+                    res = r.run(w.ee, [expr, caller])
+                elif site == "conditional/test-fails":
+                    expr = w.cond(w.sym("T1"), w.sym("C1"), w.sym("A1"))
+                    r = Run(w, answers={"T1": err(E)})
                     res = r.run(w.ee, [expr, caller])
                 elif site == "tail-call/operand-fails":
                     if getattr(w.epc, "missing", False) or getattr(w.asp, "missing", False):
@@ -1417,7 +1472,7 @@ def rule_error_locations(ctx, rule):
     witness = None
     for site, own, d in t["error-locations"]:
         key = "%s/%s" % (site, "located-error" if own else "unlocated-error")
-        where = mir_where(w.ee if site.startswith("call") else w.ap)
+        where = mir_where(w.ee if site.startswith(("call", "assignment", "conditional")) else w.ap)
         if "stuck" in d:
             ctx.undecided(rule, key, "abstract evaluation could not follow the evaluator on this case (%s)" % d["stuck"], where)
             continue
@@ -1610,10 +1665,15 @@ def epc_table(w):
     given environment) and the operator's value must be a procedure"""
     rows = []
     env = Frame(None, "tail-env")
-    for scenario in ("procedure", "non-procedure"):
+    for scenario in ("procedure", "non-procedure", "operator-error"):
         op, args = w.sym("OP"), [w.sym("A1"), w.sym("A2")]
         ptok = Tok("procedure", "P")
         answers = {"OP": ok(w.procedure_value(ptok)) if scenario == "procedure" else ok(w.named(w.val, "Boolean", [True]))}
+        if scenario == "operator-error":
+            if getattr(w.epc, "missing", False):
+                continue
+            # the operator itself fails (an unbound variable, a failing sub-call): nothing after it is evaluated
+            answers = {"OP": err(Tok("error", "EOP"))}
         r = Run(w, answers=answers)
         if getattr(w.epc, "missing", False):
             # no such function on this tree: the pending call is evaluated by whoever runs the trampoline.  One turn of
@@ -1653,10 +1713,28 @@ def epc_table(w):
         evals = [e for e in r.events if e[0] == "eval"]
         rows.append((scenario, {"result": res, "evaluated": [e[1] for e in evals], "envs_ok": all(e[2] is env for e in evals),
                                 "applies": len([e for e in r.events if e[0].startswith("apply")]), "ptok": ptok, "op": op}))
+    if not getattr(w.epc, "missing", False):
+        # (OP x x) in a frame that binds x, held by nobody else: a variable named twice among the operands denotes the frame's binding
+        # both times.  A reference to x answers with what the frame binds at that moment (unbound once the frame has lost it).
+        env2 = Frame(None, "tail-env-2")
+        val = w.named(w.val, "Boolean", [True])
+        env2.defs.d[machine.key_of("x")] = ("x", val)
+        ptok = Tok("procedure", "P")
+
+        def ref_x():
+            cur = env2.defs.d.get(machine.key_of("x"))
+            return ok(cur[1]) if cur is not None else err(Tok("error", "x-unbound"))
+        r = Run(w, answers={"OP": ok(w.procedure_value(ptok)), "x": ref_x})
+        try:
+            res = r.run(w.epc, [w.sym("OP"), [w.sym("x"), w.sym("x")], env2])
+            rows.append(("same-variable-twice", {"result": res}))
+        except (absint.Stuck, absint.Loop) as e:
+            rows.append(("same-variable-twice", {"stuck": str(e)}))
     return rows
 
 
-def rule_epc(ctx, rule, rule_loc=None):
+def rule_epc(ctx, rule, rule_loc=None, operands_row=False):
+    """operands_row: only the row on what the operands of a pending tail call denote (a variable named twice)"""
     fb = ctx.fb()
     w = tables(fb)["w"]
     if "epc" not in tables(fb):
@@ -1664,6 +1742,27 @@ def rule_epc(ctx, rule, rule_loc=None):
     v = Verdict(ctx, rule, mir_where(w.epc if not getattr(w.epc, "missing", False) else w.ap))
     for sc, d in tables(fb)["epc"]:
         res = d.get("result")
+        if operands_row and sc != "same-variable-twice":
+            continue
+        if sc == "operator-error":
+            v.row("tail-call/operator-fails", d, [
+                (d.get("evaluated") == ["OP"], "a pending tail call whose operator fails evaluates %s; expected the operator only: the fault "
+                                               "stops the call, operands evaluated after it have effects a later form can see" % d.get("evaluated")),
+                (isinstance(res, Enum) and getattr(res, "name", None) == "Err" and contains(res, lambda x: isinstance(x, Tok) and x.tag == "EOP"),
+                 "a pending tail call whose operator fails yields %r, expected that error" % (res,)),
+            ])
+            continue
+        if sc == "same-variable-twice":
+            if not operands_row:
+                continue
+            lost = contains(res, lambda x: isinstance(x, Tok) and x.tag == "x-unbound")
+            if "stuck" not in d and not lost and not (isinstance(res, Enum) and getattr(res, "name", None) == "Ok"):
+                ctx.undecided(rule, "tail-call/same-variable-twice", "cannot read what a pending tail call (OP x x) evaluates to (%r)" % (res,), v.where)
+                continue
+            v.row("tail-call/same-variable-twice", d, [
+                (not lost, "a pending tail call (OP x x) in a frame that binds x finds x unbound at its second mention (%r): the loop "
+                           "computes something else than the same calls in non-tail position" % (res,))])
+            continue
         if sc == "procedure":
             v.row("tail-call/operator-is-procedure", d, [
                 (sorted(d.get("evaluated", [])) == ["A1", "A2", "OP"] and d.get("envs_ok"),
